@@ -272,7 +272,8 @@ class C10(Prop):
             "set_style_by_range (rectangular), insert/remove rows and columns, move/copy range, cleanup, copy_row/col_styling; all invariants evaluated after every "
             "operation, exactly-once emission checked on the saved sheet XML after every 4th; distinct by hash of the history")
     assumptions = ["oracle: brute-force scan of get_collection_to_hashmap vs every other public view of the store",
-                   "whole-row / whole-column forms of set_style_by_range are not used (they panic before touching the store, see KF-C17)"]
+                   "whole-row / whole-column forms of set_style_by_range are not used (they panic before touching the store, see KF-C17)",
+                   "histories stay inside rows 1-60 and columns 1-30: the store is not observed above row 16384 (edits and bounds getters cost time proportional to the highest row; seeded change C10i is not seen)"]
 
 
 class C14(Prop):
